@@ -57,6 +57,9 @@ static Verdict evaluate(const TaskCase &c, const c16_out &o) {
   PBT_REQUIRE(o.res.live_allocs == 0, "task memory not released: " << o.res.live_allocs << " allocation(s)");
   PBT_REQUIRE(o.res.double_free == 0, "task freed twice");
   PBT_REQUIRE(o.cb_after_stop == 0, o.cb_after_stop << " callback(s) after stop/destroy/disable had returned on the task's own thread");
+  PBT_REQUIRE(o.cb_while_paused == 0, o.cb_while_paused << " callback(s) while the dispatch task was paused: its callback had returned a code other than CONTINUE and "
+                                                         "tp_task_enable(1) had not been called yet (header: such return codes stop callbacks until then)");
+  if (o.paused) PBT_REQUIRE(o.resume_rc == 0 || inj > 0, "tp_task_enable(1) on the paused task failed with " << o.resume_rc);
   if (o.start_rc != 0) {
     PBT_REQUIRE(inj > 0 || c.start_ex_direct, "task start failed with " << o.start_rc << " without an injected fault");
     PBT_REQUIRE(o.ncb == 0 || c.start_ex_direct, "callbacks after a failed start");
@@ -117,7 +120,7 @@ static Verdict evaluate(const TaskCase &c, const c16_out &o) {
   for (uint32_t i = 0; i < o.ncb && i < 12; i++) hist << " [err " << o.cb[i].error << " eof " << o.cb[i].eof << " n " << o.cb[i].transfered << " ret " << o.cb[i].ret << "]";
   hist << " sent " << o.sent_total << " final used/off/tr " << o.final_used << "/" << o.final_offset << "/" << o.final_tr;
   PBT_REQUIRE(n_err == 0 || inj > 0 || c.end == 1, "task reported a socket error " << "(count " << n_err << ") on a healthy connection");
-  bool self_stopped_early = (c.cb_policy != 0);
+  bool self_stopped_early = (c.cb_policy != 0 && c.cb_policy != 4);  // policy 4 pauses and later resumes: the transfer completes
   if (c.dir == 0) {
     // content: the window holds, in order, exactly the bytes that arrived
     uint64_t moved = 0;
@@ -167,6 +170,7 @@ static Verdict evaluate(const TaskCase &c, const c16_out &o) {
     }
   }
   if (self_stopped_early && o.ncb >= 1) { label("stopped_from_inside_callback"); nt = true; }
+  if (o.paused) { label(c.timeout_ms && c.timeout_ms <= 500 ? "paused_longer_than_timeout_then_resumed" : "paused_then_resumed"); nt = true; }
   if (c.win_off != 0) { label("window_not_at_buffer_start"); nt = true; }
   if (o.ncb >= 2) nt = true;
   if (n_eof) nt = true;
@@ -227,6 +231,10 @@ static rc::Gen<TaskCase> genCase() {
     if (c.start_ex_direct && c.prequeue == 0) c.prequeue = 1;
     c.end = slow ? *rc::gen::element(0, 0, 1) : *rc::gen::weightedElement<int>({{1, 0}, {4, 1}, {2, 2}});
     c.cb_policy = *rc::gen::weightedElement<int>({{6, 0}, {1, 1}, {1, 2}, {1, 3}});
+    // dispatch receive tasks: decline to continue without stopping, stay paused, re-enable later (peer ends the stream so the run completes)
+    if (c.ev_flags == 2 && c.dir == 0 && c.handler == 0 && c.end != 0 && *range<int>(0, 2) == 0) c.cb_policy = 4;
+    // ... and make sure the slow (short-timeout) scenarios contain this shape often enough: paused for longer than the timeout
+    if (slow && c.dir == 0 && c.handler == 0 && *range<int>(0, 2) == 0) { c.ev_flags = 2; c.cb_policy = 4; c.end = *rc::gen::element(1, 2); c.after_every_read = *rc::gen::element(1, 1, 0); }
     c.rearm = (c.dir == 0 && c.handler == 0) ? *rc::gen::weightedElement<int>({{4, 0}, {1, 1}}) : 0;
     c.sndbuf = c.dir == 1 ? *rc::gen::element(0, 0, 2304) : 0;
     c.plan = *bytes_upto(12);
